@@ -22,5 +22,41 @@ TEXT = {
              "Trusted: rapid; 'the divider gives' = calling the library divider on each subset.",
              "property-based testing (rapid) against a brute-force reference", "4/C18"),
 }
+TEXT.update({
+    "C03": T("Generated producer/consumer scripts for v1 join, v2 join and v2 unite on a fake clock with timeouts firing between, at and after arrivals; every element carries its index, so the concatenation of the outputs is compared element by element with what was written and the size rules are checked per slice.",
+             BUB + "Select-case choice at one virtual instant is sampled.",
+             "property-based testing (rapid) of generated scripts on a synctest fake clock; reference-stream oracle", "4/C03"),
+    "C08": T("Join/unite scripts with consumers that keep every slice, hold them for up to 3x Timeout under producer pressure, scribble into copy-mode slices, and v1 Stop/cancel between delivery and release; snapshots at delivery are compared with the contents at release / end of run / after Stop and the address ranges of copy-mode outputs must be disjoint.",
+             BUB + "All delivered slices stay referenced, so address reuse by the GC is excluded. The same scripts run under -race in C20.",
+             "property-based testing (rapid) on a fake clock; snapshot/aliasing oracle", "4/C08"),
+    "C09": T("Without a timeout the outputs must equal the greedy reference batching computed from the script; with a timeout every non-maximal non-final slice must arrive at least Timeout after the write-start of the last element of the previous slice (exact virtual nanoseconds).",
+             BUB + "Lower bound anchored at the producer's write-start (<= the discipline's timer reset).",
+             "property-based testing (rapid) on a fake clock; greedy reference model + exact lower-bound oracle", "4/C09"),
+    "C10": T("Timeout>0, always-ready consumer: (receive - accept) * d <= Timeout * (d+1) for every element, in integers on the fake clock (latency is exactly 0, so the bound is tight: a pause or tick period off by 1 ns fails).",
+             BUB + "Verifies the algorithmic bound, not the OS timer.",
+             "property-based testing (rapid) on a fake clock; exact upper-bound oracle", "4/C10"),
+    "C11": T("Unite scripts with slice lengths from {0,1,2,3,J-1,J,J+1,2J} and timeouts: output boundaries must be input boundaries, order preserved, oversize inputs delivered alone.",
+             BUB, "property-based testing (rapid) on a fake clock; boundary-alignment oracle", "4/C11"),
+    "C01": T("Generated operation scripts executed step by step against the unmodified discipline goroutines; the script goroutine is the only consumer and decides every receive and release, drains the output completely at quiescent points without releasing, and asserts received-minus-release-issued <= H after every receive (simplified: concurrent Handle calls). Both versions, plain and simplified, four dividers, mixed buffered/unbuffered inputs, v1 add/remove.",
+             BUB + "Harness count <= discipline count at every instant (DESIGN 3.1), so an alarm is a real over-commit.",
+             "stateful property-based testing (rapid scripts) with owned schedule (synctest); invariant after every step", "4/C01"),
+    "C02": T("Items are (registration priority, channel generation, sequence number); tags, per-channel order, duplicates, inventions and, at normal termination, losses are compared exactly.",
+             BUB, "stateful property-based testing (rapid scripts) with owned schedule; identity-tracking oracle", "4/C02"),
+    "C05": T("Saturation scripts (all data sits in the channels) with arbitrary release orders/groupings: per-priority in-flight never exceeds divider(all priorities, H) and equals it at every quiescent point with no release outstanding.",
+             BUB, "stateful property-based testing (rapid scripts) with owned schedule; share-model oracle", "4/C05"),
+    "C06": T("Bounded liveness on the owned clock: at quiescence with nothing in flight and data waiting something must have been delivered; a lone active priority gets all handlers; one-at-a-time release delivers everything. Two genuine defects (F4, F5) are recorded as known findings and excluded by class.",
+             BUB + "Unbounded 'eventually' is not decidable by testing; quiescence = two settle quanta without output.",
+             "stateful property-based testing (rapid scripts) with owned clock and schedule; bounded-liveness oracle", "4/C06"),
+    "C07": T("Termination observed implies all inputs closed and delivered and nothing unreleased (no Release panic, Err yields no error); conversely at a quiescent point where that holds the discipline has terminated. Releases and closes are withheld across time steps, inputs left open and silent, GracefulStop early/late.",
+             BUB, "stateful property-based testing (rapid scripts) with owned clock and schedule; two-directional termination oracle", "4/C07"),
+    "C15": T("A wrapping divider checks the arguments of every call and, per fault plan, corrupts one eligible call (call index drawn, enumerated in the thorough tier): New error values, no delivery beyond the output buffer after a round fault, ErrDividerBad on Err(), capacity, termination after release.",
+             BUB + "Fault point = index among the divider calls the discipline validates.",
+             "fault injection at generated/enumerated call indices inside property-based scripts", "4/C15"),
+    "C16": T("Stop()/cancel inserted at drawn (thorough: every) script position of v1 plain, simplified and join runs: must return within bounded virtual time with no release, join output closed at that moment, nothing written afterwards, no Handle running, deliveries an ordered subsequence. A spinning goroutine is caught by a real-time watchdog and confirmed by replay.",
+             BUB + "Ordering at one virtual instant (ns windows) is sampled only.",
+             "fault injection (stop point) inside property-based scripts on an owned clock", "4/C16"),
+    "C17": T("v1 scripts with add / replace / remove / re-add interleaved with traffic: reads of a removed or replaced channel stop at the return of the call, tags and order per channel, capacity across the history, everything read delivered once, GracefulStop completes.",
+             BUB, "stateful property-based testing (rapid scripts) with owned schedule; read-counter and identity oracle", "4/C17"),
+})
 
 NOT_APPLICABLE = {}
